@@ -3,8 +3,24 @@ import RoaringModel.Spec
 import RoaringModel.Fmt
 import RoaringModel.Lemmas.MiscFmt
 import RoaringModel.Lemmas.SpecFacts
+import RoaringModel.Lemmas.BitmapQuery
+import RoaringModel.Props.C01
+import RoaringModel.Props.C03
+import RoaringModel.Props.C17
 /-!
 # C16 — public operations are total: only the documented panics (property theorems)
+
+The model makes every Rust panic site an explicit `none` (outer `Option`); C16 collects, in one place, the facts
+that for a well-formed value (`Bitmap.WF`) and arguments of the right integer type none of these is reached except
+at the documented panics:
+* range conversion: `C16_ranges`, `C16_convertRange_*` (empty / inverted ranges are the empty set, never a panic);
+* `Debug`: `C16_debug_total`, `C16_debug_spec`;
+* every mutator, in both build configurations: `C16_mutators_total`, `C16_history_total` (thin corollaries of C01);
+* `range` / `into_range` panic exactly on the two documented inputs: `C16_range_panics` (corollary of C03);
+* `from_lsb0_bytes` panics only past `2^32`, and exactly then for a multiple-of-8 offset: `C16_lsb0_panics`
+  (corollary of C17);
+* the `Option`-valued queries return `None` exactly when the set has no such element: `C16_select_total`,
+  `C16_min_max_total`.
 -/
 namespace Roaring.C16
 open Roaring Roaring.MiscLemmas
@@ -84,7 +100,8 @@ example : Spec.Bound.mem (.excl 3) (.excl 8) 7 := by decide
 /-- `Debug` formatting is total: for a well-formed bitmap neither `unwrap()` of `fmt.rs` can fail
     (`min()` / `max()` are `Some` whenever the summary branch `len() >= 16` is taken); for fewer than 16
     values the list branch has no partial operation at all. -/
-theorem C16_debug_total (b : Bitmap) (h : BitmapWF b) : (Bitmap.debugFmt b).isSome = true := by
+theorem C16_debug_total (b : Bitmap) (hwf : Bitmap.WF b) : (Bitmap.debugFmt b).isSome = true := by
+  have h := (bitmapWF_iff b).2 hwf
   unfold Bitmap.debugFmt
   split
   · rfl
@@ -116,12 +133,94 @@ theorem C16_debug_total (b : Bitmap) (h : BitmapWF b) : (Bitmap.debugFmt b).isSo
         | some hi => rfl
 
 /-- Non-vacuity: a well-formed 17-element bitmap takes the summary branch. -/
-example : BitmapWF [⟨0, .array (List.range 17)⟩] ∧
+example : Bitmap.WF [⟨0, .array (List.range 17)⟩] ∧
     Bitmap.debugFmt [⟨0, .array (List.range 17)⟩] = some "RoaringBitmap<17 values between 0 and 16>" := by
-  refine ⟨⟨by decide, ?_⟩, by decide⟩
+  refine ⟨(bitmapWF_iff _).1 ⟨by decide, ?_⟩, by decide⟩
   intro c hc
   simp at hc
   subst hc
   exact ⟨by decide, by decide, by decide, by decide⟩
+
+/-- `Debug` output is determined by the element set: it is the SPEC string (`Spec.debugString`). -/
+theorem C16_debug_spec (b : Bitmap) (hwf : Bitmap.WF b) :
+    Bitmap.debugFmt b = some (Spec.debugString (Bitmap.elems b)) := by
+  unfold Bitmap.debugFmt Spec.debugString
+  rw [Bitmap.len_spec b hwf, Bitmap.min?_spec b hwf, Bitmap.max?_spec b hwf]
+  unfold Spec.min? Spec.max?
+  split
+  · rfl
+  · rename_i hlen
+    cases hs : Bitmap.elems b with
+    | nil => rw [hs] at hlen; simp at hlen
+    | cons x xs =>
+      have hne : x :: xs ≠ [] := by simp
+      rw [List.getLast?_eq_some_getLast hne]
+      rfl
+
+/-! ### the panic sites of the other operations (thin corollaries of C01 / C03 / C17 / C07's library) -/
+
+/-- **Mutators are total.**  `insert`, `remove`, `insert_range`, `remove_range`, `push`, `append`, `extend`,
+    `clear`, `remove_smallest`, `remove_biggest` on a well-formed value with `u32` arguments never panic, in
+    either build configuration (no debug validation fires), and the value stays well-formed — so the next call
+    cannot panic either. -/
+theorem C16_mutators_total (dbg : Bool) (b : Bitmap) (h : Bitmap.WF b) (op : Op32) (hv : op.Valid) :
+    ∃ b' r, Bitmap.step dbg b op = some (b', r) ∧ Bitmap.WF b' := by
+  obtain ⟨b', h1, h2, _⟩ := C01.C01_step dbg b h op hv
+  exact ⟨b', _, h1, h2⟩
+
+/-- ... along every history starting from `new()`. -/
+theorem C16_history_total (dbg : Bool) (ops : List Op32) (hv : ∀ op ∈ ops, op.Valid) :
+    (Bitmap.run dbg Bitmap.new ops).isSome = true := by
+  obtain ⟨b', h1, _⟩ := C01.C01_run dbg ops Bitmap.new C01.C01_new.1 hv
+  rw [h1]; rfl
+
+/-- the part of well-formedness that iteration relies on -/
+theorem bitmapOK_of_wf (b : Bitmap) (h : Bitmap.WF b) : C03.BitmapOK b := by
+  refine ⟨⟨h.1, ?_⟩, fun c hc => (h.2 c hc).1⟩
+  intro c hc
+  have hst := (h.2 c hc).2
+  unfold Container.IterOK Store.IterOK
+  cases hs : c.store with
+  | array v => rw [hs] at hst; exact hst.1
+  | bitmap bs => rw [hs] at hst; exact ⟨hst.1.length, hst.1.words, hst.1.len⟩
+
+/-- **`range` / `into_range` panic exactly on the two documented inputs** (both bounds given and start > end, or
+    both excluded and equal — `Bound.inverted`); on every other bound pair the cursor is created. -/
+theorem C16_range_panics (b : Bitmap) (h : Bitmap.WF b) (lo hi : Bound)
+    (hlo : C03.BoundU32 lo) (hhi : C03.BoundU32 hi) :
+    Bitmap.range b lo hi = none ↔ Spec.Bound.inverted lo hi = true := by
+  rw [(C03.C03_range b (bitmapOK_of_wf b h) lo hi hlo hhi).1]
+  unfold Spec.range
+  split <;> simp_all
+
+/-- **`from_lsb0_bytes`**: no panic whenever `offset + 8·len ≤ 2^32` (any offset); a panic only past `2^32`; and
+    for a multiple-of-8 offset a panic exactly for a non-empty slice that extends past `2^32` (the documented
+    one). -/
+theorem C16_lsb0_panics (dbg : Bool) (off : Nat) (bytes : List Nat) (hb : ∀ b ∈ bytes, b < 256) :
+    (off + 8 * bytes.length ≤ 4294967296 → (Lsb0.fromLsb0 dbg off bytes).isSome = true) ∧
+    (Lsb0.fromLsb0 dbg off bytes = none → off + 8 * bytes.length > 4294967296) ∧
+    (off % 8 = 0 → (Lsb0.fromLsb0 dbg off bytes = none ↔ bytes ≠ [] ∧ off + 8 * bytes.length > 4294967296)) := by
+  refine ⟨?_, C17.C17_panic_only_outside dbg off bytes hb, C17.C17_panics_iff_aligned dbg off bytes hb⟩
+  intro hfit
+  obtain ⟨b, h1, _⟩ := C17.C17 dbg off bytes hb hfit
+  rw [h1]; rfl
+
+/-- **`select(n)`** is `None` exactly when `n ≥ len()`: the store-level `select` inside never comes back empty
+    for an index the container claims to have. -/
+theorem C16_select_total (b : Bitmap) (h : Bitmap.WF b) (n : Nat) :
+    (Bitmap.select b n = none ↔ (Bitmap.elems b).length ≤ n) ∧
+    (n < Bitmap.len b → (Bitmap.select b n).isSome = true) := by
+  rw [Bitmap.select_spec b h n, Bitmap.len_spec b h]
+  unfold Spec.select
+  refine ⟨by simp, ?_⟩
+  intro hn
+  rw [List.getElem?_eq_getElem hn]; rfl
+
+/-- **`min()` / `max()`** are `None` exactly for the empty set. -/
+theorem C16_min_max_total (b : Bitmap) (h : Bitmap.WF b) :
+    (Bitmap.min? b = none ↔ Bitmap.elems b = []) ∧ (Bitmap.max? b = none ↔ Bitmap.elems b = []) := by
+  rw [Bitmap.min?_spec b h, Bitmap.max?_spec b h]
+  unfold Spec.min? Spec.max?
+  exact ⟨List.head?_eq_none_iff, List.getLast?_eq_none_iff⟩
 
 end Roaring.C16
